@@ -165,7 +165,7 @@ def blob_cases(draw):
     else:
         c["N"] = draw(st.sampled_from(gen.npool_at_least(n, 512)))
         c["amp"] = gen.f32(draw(st.floats(0.2, 3.0)))
-    pos_kind = draw(st.sampled_from(["any", "any", "any", "any", "any", "integer", "edge0", "edgeN", "near"]))
+    pos_kind = draw(st.sampled_from(["any"] * 9 + ["integer", "edge0", "edgeN", "near"]))
     if pos_kind == "any":
         c["across"] = gen.f32(draw(st.floats(0, n - 1)))
     elif pos_kind == "integer":
@@ -323,7 +323,62 @@ def ensemble_cases(draw):
                 sx=gen.f32(draw(st.floats(-1, 1))) if shifted else 0.0, sy=gen.f32(draw(st.floats(-1, 1))) if shifted else 0.0)
 
 
+# ------------------------------------------------------------------ (d) the real program with tracking, sanitizer build
+def run_cli(case):
+    from vlib import cli, cfggen
+    import re
+    wd = cli.scratch("c15")
+    o = dict(case["opts"])
+    d = cfggen.derive(o)
+    pq, n = d["pq"], d["n"]
+    delta = pq / (n - 1)
+    q0 = -pq / 2 - o.get("PhaseSpaceShiftX", 0.0) * delta
+    p0 = -pq / 2 - o.get("PhaseSpaceShiftY", 0.0) * delta
+    pts = []
+    for fx, fy in case["particles"]:
+        pts.append((q0 + fx * pq, p0 + fy * pq))
+    with open(os.path.join(wd, "t.txt"), "w") as f:
+        for q, p in pts:
+            f.write("%r %r\n" % (q, p))
+    o["tracking"] = "t.txt"
+    r = cli.run(["-c", "/dev/null", "-o", "r.h5"] + cli.optargs(o), wd, flavour="san", env={"INOVESA_VERIF_PRNG_SEED": str(case["prng"])})
+    cls = ["cli", "fptrack%d" % o["FPTrack"]]
+    if re.search(r"AddressSanitizer|runtime error:", r.err) or r.signal:
+        lines = [l for l in r.err.splitlines() if "ERROR" in l or "runtime error" in l or " in vfps" in l][:4]
+        return Outcome(False, True, cls, "tracking run hit a memory error / undefined behaviour: %s (options %s)" % (" | ".join(lines), o), sig="c15:cli:sanitizer")
+    if r.rc != 0 or "Finished." not in r.out:
+        return Outcome(False, True, cls, "run failed: %s %s" % (r.out[-300:], r.err[-300:]), sig="c15:cli:runfail")
+    h = cli.H5(os.path.join(wd, "r.h5"))
+    part = h["/Particles/data"]
+    if part.shape[1] != len(pts):
+        return Outcome(False, True, cls, "%d particles given, %d stored" % (len(pts), part.shape[1]), sig="c15:cli:count")
+    tol = 1e-4 * pq
+    bad = ~np.isfinite(part) | (part[..., 0:1] < q0 - tol) | (part[..., 0:1] > q0 + pq + tol)
+    badp = ~np.isfinite(part[..., 1]) | (part[..., 1] < p0 - tol) | (part[..., 1] > p0 + pq + tol)
+    if bad[..., 0].any() or badp.any():
+        idx = np.argwhere(bad[..., 0] | badp)[0]
+        return Outcome(False, True, cls, "stored coordinate of particle %d at record %d is %s, outside the grid [%g,%g]x[%g,%g]" %
+                       (idx[1], idx[0], part[idx[0], idx[1]].tolist(), q0, q0 + pq, p0, p0 + pq), sig="c15:cli:outside")
+    edge = any(fx in (0.0, 1.0) or fy in (0.0, 1.0) for fx, fy in case["particles"])
+    return Outcome(True, bool(edge), cls + (["edge"] if edge else []))
+
+
+@st.composite
+def cli_cases(draw):
+    from vlib import cfggen
+    o = draw(cfggen.base_config(nmin=12, nmax=32, min_laststep=3, max_laststep=40, multibunch=False))
+    o["FPTrack"] = draw(st.sampled_from([0, 1, 2, 3, 3]))
+    o["outstep"] = draw(st.sampled_from([1, 2, 5]))
+    if draw(st.booleans()):
+        o["DampingTime"] = float(10 ** draw(st.floats(-5, -3)))      # strong damping / diffusion per step
+    parts = [[draw(st.sampled_from([0.0, 1.0, 0.5, 0.999999, 1e-6])) if draw(st.booleans()) else draw(st.floats(0, 1)),
+              draw(st.sampled_from([0.0, 1.0, 0.5, 0.999999, 1e-6])) if draw(st.booleans()) else draw(st.floats(0, 1))]
+             for _ in range(draw(st.integers(1, 12)))]
+    return dict(opts=o, particles=parts, prng=draw(st.integers(1, 2**31 - 1)))
+
+
 def subs(tier):
-    return [Sub("blob", blob_cases(), run_blob, quick=1500, thorough=60000),
-            Sub("ingrid", ingrid_cases(), run_ingrid, quick=600, thorough=20000),
-            Sub("ensemble", ensemble_cases(), run_ensemble, quick=12, thorough=200, shrink_budget=12)]
+    return [Sub("blob", blob_cases(), run_blob, quick=6000, thorough=60000),
+            Sub("ingrid", ingrid_cases(), run_ingrid, quick=2400, thorough=20000),
+            Sub("ensemble", ensemble_cases(), run_ensemble, quick=48, thorough=200, shrink_budget=12),
+            Sub("cli", cli_cases(), run_cli, quick=256, thorough=600, needs=("san", "h5x", "shim"), shrink_budget=20)]
